@@ -177,11 +177,8 @@ pub(super) fn ensure_commit_has_quorum(
 }
 
 fn does_commit_voting_power_have_quorum(commited: u64, total: u64) -> bool {
-    if total < 3 {
-        commited.saturating_mul(3) > total.saturating_mul(2)
-    } else {
-        commited > total.saturating_div(3).saturating_mul(2)
-    }
+    // strictly more than 2/3 of the total: 3 * commited > 2 * total, evaluated without overflow
+    u128::from(commited).saturating_mul(3) > u128::from(total).saturating_mul(2)
 }
 
 // see https://github.com/tendermint/tendermint/blob/35581cf54ec436b8c37fabb43fdaa3f48339a170/types/vote.go#L147
